@@ -32,17 +32,24 @@ def timegrid(V, cov, thorough):
             continue
         # two entry points: the constructor, and update_time_vector(start, end, dt) on existing settings (what Project(sim_start=..,
         # sim_end=.., sim_dt=..) and Project.update_settings do) - the old step and end year must not leak into the new grid
-        for j, how in enumerate(("ProjectSettings(start, end, dt)", "update_time_vector(start, end, dt)")):
+        for j, how in enumerate(("ProjectSettings(start, end, dt)", "update_time_vector(start, end, dt)", "update_time_vector(start) alone")):
+            s_, e_ = s, e
             if j == 0:
                 S = at.ProjectSettings(float(s), float(e), float(dt))
-            else:
+            elif j == 1:
                 S = at.ProjectSettings()
                 S.update_time_vector(start=float(s), end=float(e), dt=float(dt))
+            else:
+                # only the start year changes (as Project.load_databook does): the grid is start' + k*dt and ends at the first point at or
+                # after the end year the settings held (their rounded end, start + n*dt)
+                S = at.ProjectSettings(float(s), float(e), float(dt))
+                s_, e_ = s + dt / 3, s + c["n"] * dt
+                S.update_time_vector(start=float(s_))
             tv = S.tvec
             end1 = float(S.sim_end)
             S.sim_end = S.sim_end  # what calibrate() / run_optimization() do to restore the end year they shortened
-            tr.append(dict(id=2 * i + j, start=c["start"], end=c["end"], dt=c["dt"], len=len(tv), tv=FX.fixseq(tv), len2=len(S.tvec), end1=FX.fix(end1), end2=FX.fix(float(S.sim_end))))
-            entry[2 * i + j] = how
+            tr.append(dict(id=3 * i + j, start=FX.rat(s_), end=FX.rat(e_), dt=c["dt"], len=len(tv), tv=FX.fixseq(tv), len2=len(S.tvec), end1=FX.fix(end1), end2=FX.fix(float(S.sim_end))))
+            entry[3 * i + j] = how
     path = os.path.join(d, "trace.json")
     json.dump(tr, open(path, "w"))
     r2 = C.run_tlc(d, "TimeGridTrace", cfg="TimeGridTrace.cfg", workers=1, env={"TRACE_FILE": path}, xss="512m", timeout=1200)
@@ -59,7 +66,7 @@ def timegrid(V, cov, thorough):
         if r2.postcondition_failed:
             raise C.MachineryError("TimeGridTrace did not consume the trace")
     for cid, clause in bad[:40]:
-        c = cases[cid // 2]
+        c = cases[cid // 3]
         V.violation("C03 %s %s" % (clause, entry[cid].split("(")[0]), dict(case=c, clause=clause, entry=entry[cid], observed_len=[t["len"] for t in tr if t["id"] == cid]))
     cov["states"] += r.distinct + r2.distinct
     cov["transitions"] += r.generated + r2.generated
